@@ -1,0 +1,32 @@
+//go:build verif
+
+// Machine-checked contracts of the Alphabet contract (comment-only; read by the
+// verifier in /verif, ignored by every compiler because of the build tag).
+
+package alphabet
+
+/*@
+module authz
+props C03 C16 C19
+use common core
+dialect neovm
+// Authorisation table (C03): one line per exported method with the witness its documentation requires.
+// Checked by the zero-annotation sweep: on every normal exit that changed state (storage write,
+// notification, state-changing call) the formula holds; `safe` methods never change state.
+// alphabet() = 2/3+1 multisig of the chain committee, cmtaddr() = its majority multisig.
+
+witness Update [C03,C16] : W(cmtaddr())
+witness Emit [C03,C19]   : W(committee()[b2i(store.get("index"))])
+witness Vote [C03]       : W(alphabet())
+safe OnNEP17Payment [C03]
+safe Gas [C03]
+safe Neo [C03]
+safe Name [C03]
+safe Version [C03]
+safe Verify [C03]
+
+// verify accepts only transactions carrying an Alphabet multi-signature (2/3+1 or majority)
+func Verify() (r)
+  pure
+  ensures [C03] r == (W(alphabet()) || W(cmtaddr()))
+@*/
